@@ -72,6 +72,12 @@ MIN_EVENTS = {
                  'cmdcomplete_error_status_checks': 20000, 'sweep_instances': 65536},
 }
 CASE_TIMEOUT = 900
+EXHAUSTIVE_NOTE = ('enumerated completely in every run: all registered classes of every registry; all unregistered '
+                   'event codes and LE sub-event codes and all first octets of unclaimed vendor events x 9 boundary '
+                   'lengths; ACL pb x bc x handle{0,1,0xEFF,0xFFF} x length{0,1,255,256,65535}; SCO status x handle x '
+                   'length{0,1,60,254,255}; ISO pb x time-stamp x packet-status 0..3 x handle x fragment{0,1,255,256}; '
+                   'thorough only: all 65536 16-bit patterns (hence all 8-bit values) through every integer path of the '
+                   'field language on the synthetic all-paths object (quick: one residue class mod 16, chosen by the seed)')
 
 QUALITY_REPORT_IDS = [1, 2, 3, 4, 7, 8, 9]
 
